@@ -91,7 +91,7 @@ func genTraversalDoc(r *Rand, obj bool, deepOK bool) Doc {
 		return docOf(withTrailer(r, genContainerDoc(r, obj, memberCount(r), 2000)), "container")
 	case 1:
 		d := genContainerDoc(r, obj, memberCount(r), 600)
-		return docOf(mutateDoc(r, d), "container-mut")
+		return docMut(r, d, "container-mut")
 	case 2:
 		return docOf(withTrailer(r, []byte([]string{"null", " null", "\n\tnull ", "null,"}[r.Intn(4)])), "null-root")
 	case 3:
